@@ -49,9 +49,37 @@ type C10Case struct {
 	Streams []C10Stream `json:"streams"`
 	Delays  []Delay     `json:"delays,omitempty"`
 	Reopen  []C10Reopen `json:"reopen,omitempty"`
-	// Rounds: barrier rounds of concurrent handle acquisition on fresh ids, run before the traffic
+	// Rounds: barrier rounds of concurrent handle acquisition on fresh ids, run after the traffic
 	Rounds []C10OpenRound `json:"open_rounds,omitempty"`
+	// options of the two multiplexers (index 0 = mux A, 1 = mux B)
+	QLenB       int     `json:"qlen_b,omitempty"`       // read queue length of mux B (0: same as QLen)
+	OmitQLen    [2]bool `json:"omit_qlen,omitempty"`    // WithReadQueueLength not passed where the length is the default 256
+	BlockedRead [2]bool `json:"blocked_read,omitempty"` // WithBlockedRead
+	// Unblock of a blocked mux: when the UnblockAfter-th Write towards it is about to start
+	// (0 = before any traffic), at the latest UnblockDelayMs after the traffic started
+	UnblockAfter   [2]int `json:"unblock_after,omitempty"`
+	UnblockDelayMs [2]int `json:"unblock_delay_ms,omitempty"`
+	// Ghosts: writes to connection ids that are not open at the receiving end (dropped by design)
+	Ghosts []C10Ghost `json:"ghosts,omitempty"`
 }
+
+// C10Ghost is a writer on an id that only the sending end has open: never opened at the
+// receiver, or (Closed) opened and closed there before the traffic. Its frames are dropped by
+// the receiver and are part of no expectation.
+type C10Ghost struct {
+	Dir    int   `json:"dir"`
+	Closed bool  `json:"closed,omitempty"`
+	Sizes  []int `json:"sizes"`
+}
+
+func (c C10Case) qlenOf(side int) int {
+	if side == 1 && c.QLenB > 0 {
+		return c.QLenB
+	}
+	return c.QLen
+}
+
+func (c C10Case) minQLen() int { return min(c.qlenOf(0), c.qlenOf(1)) }
 
 func genQLen(t *rapid.T) int {
 	return rapid.OneOf(
@@ -63,7 +91,22 @@ func genQLen(t *rapid.T) int {
 }
 
 func genC10(t *rapid.T) C10Case {
-	c := C10Case{QLen: genQLen(t), Blocked: rapid.IntRange(0, 4).Draw(t, "blocked") == 0}
+	c := C10Case{QLen: genQLen(t)}
+	if rapid.IntRange(0, 2).Draw(t, "qlen_b") == 0 {
+		c.QLenB = genQLen(t)
+	}
+	for sd := 0; sd < 2; sd++ {
+		c.OmitQLen[sd] = c.qlenOf(sd) == defaultQLen && rapid.Bool().Draw(t, "omit_qlen")
+		switch rapid.SampledFrom([]int{3, 3, 3, 3, 3, 1, 2, 0}).Draw(t, "blocked") {
+		case 0: // blocked, unblocked before any traffic
+			c.BlockedRead[sd] = true
+			c.UnblockDelayMs[sd] = 1
+		case 1, 2: // blocked, unblocked after some writes of the peer
+			c.BlockedRead[sd] = true
+			c.UnblockAfter[sd] = rapid.IntRange(1, 12).Draw(t, "unblock_after")
+			c.UnblockDelayMs[sd] = rapid.SampledFrom([]int{1, 2, 5, 20}).Draw(t, "unblock_delay")
+		}
+	}
 	c.IDs = genIDs(t, rapid.IntRange(1, 8).Draw(t, "nids"))
 	budget := tierPick(32<<20, 64<<20)
 	maxPayloads := tierPick(6, 12)
@@ -76,7 +119,7 @@ func genC10(t *rapid.T) C10Case {
 				n := rapid.IntRange(0, maxPayloads).Draw(t, "npayloads")
 				sizes := make([]int, n)
 				for i := range sizes {
-					sizes[i] = genSize(t, &budget, c.QLen, bigWeight)
+					sizes[i] = genSize(t, &budget, c.minQLen(), bigWeight)
 				}
 				s.Writers = append(s.Writers, sizes)
 			}
@@ -91,7 +134,17 @@ func genC10(t *rapid.T) C10Case {
 		}
 	}
 	c.Delays = genDelays(t, 6)
-	c.Rounds = genRounds(t, c.QLen)
+	c.Rounds = genRounds(t, c.minQLen())
+	if rapid.IntRange(0, 1).Draw(t, "ghosts") == 0 {
+		c.Ghosts = rapid.SliceOfN(rapid.Custom(func(t *rapid.T) C10Ghost {
+			g := C10Ghost{Dir: rapid.IntRange(0, 1).Draw(t, "gdir"), Closed: rapid.IntRange(0, 2).Draw(t, "gclosed") == 0}
+			n := rapid.IntRange(1, 4).Draw(t, "gn")
+			for i := 0; i < n; i++ {
+				g.Sizes = append(g.Sizes, genSize(t, &budget, 3, 1))
+			}
+			return g
+		}), 1, 3).Draw(t, "ghosts")
+	}
 	if rapid.IntRange(0, 3).Draw(t, "reopen") == 0 {
 		n := rapid.IntRange(1, min(3, len(c.IDs))).Draw(t, "nreopen")
 		first := rapid.IntRange(0, len(c.IDs)-1).Draw(t, "reopen_conn")
@@ -142,6 +195,9 @@ type c10run struct {
 	logMu    sync.Mutex
 	log      []c10Event
 	lenient  map[string]bool
+
+	towards   [2]atomic.Int64 // Writes started towards mux 0 / 1
+	unblocked [2]atomic.Bool  // Unblock of that mux has been called (or it was never blocked)
 }
 
 func (r *c10run) failf(format string, a ...any) {
@@ -182,8 +238,39 @@ func runC10(c C10Case) ev.Outcome {
 func runC10Once(c C10Case) (ev.Outcome, bool) {
 	defer settleGoroutines(runtime.NumGoroutine())
 	r := &c10run{c: c, abortC: make(chan struct{}), lenient: map[string]bool{}}
-	r.p = connectPair(c.QLen, c.Blocked, c.IDs, nil)
+	blocked := c.BlockedRead
+	if c.Blocked { // older cases: both ends blocked, unblocked before any traffic
+		blocked = [2]bool{true, true}
+	}
+	r.p = connectPairOpts(pairOpts{qlen: [2]int{c.qlenOf(0), c.qlenOf(1)}, omitQLen: c.OmitQLen, blocked: blocked, ids: c.IDs})
 	defer r.p.shutdown()
+	for sd := 0; sd < 2; sd++ {
+		r.unblocked[sd].Store(!blocked[sd])
+	}
+	alloc := newIDAllocator(c.IDs)
+	// ghost ids: open at the sending end only
+	type ghost struct {
+		spec C10Ghost
+		id   uint32
+		wr   net.Conn
+	}
+	var ghosts []ghost
+	for _, g := range c.Ghosts {
+		if g.Dir < 0 || g.Dir > 1 {
+			continue
+		}
+		id := alloc.fresh()
+		wr, err := r.p.m[g.Dir].Open(multiplex.ConnID(id))
+		if err != nil {
+			panic(fmt.Sprintf("harness: Open(%d): %v", id, err))
+		}
+		if g.Closed {
+			if h, err := r.p.m[1-g.Dir].Open(multiplex.ConnID(id)); err == nil {
+				_ = h.Close()
+			}
+		}
+		ghosts = append(ghosts, ghost{g, id, wr})
+	}
 	remove := installDelays(c.Delays, nil)
 	defer remove()
 
@@ -227,24 +314,10 @@ func runC10Once(c C10Case) (ev.Outcome, bool) {
 		cwg.Wait()
 	}
 
-	// barrier rounds: concurrent acquisition of the handle of fresh ids
-	if len(c.Rounds) > 0 {
-		bad, stall, same := runOpenRounds(c, r.p)
-		ev.Get("C10").AddExtra("open_rounds", len(c.Rounds))
-		ev.Get("C10").AddExtra("open_rounds_all_handles_identical", same)
-		if bad != "" {
-			o := ev.Outcome{Classes: c10Classes(c), NonTrivial: c10NonTrivial(c), Fail: bad}
-			if stall {
-				o.History = map[string]any{"stacks": stacks()}
-			}
-			return o, stall
-		}
-	}
-
 	var wg sync.WaitGroup
 	for si := range c.Streams {
 		s := c.Streams[si]
-		cred := newCredits(c.QLen)
+		cred := newCredits(c.qlenOf(1 - s.Dir))
 		r.creds = append(r.creds, cred)
 		wr := r.p.conns[s.Dir][s.Conn]
 		rd := r.p.conns[1-s.Dir][s.Conn]
@@ -291,6 +364,50 @@ func runC10Once(c C10Case) (ev.Outcome, bool) {
 		}()
 	}
 
+	// ghost writers: frames for ids that are not open at the receiver, interleaved with the traffic
+	for gi, g := range ghosts {
+		wg.Add(1)
+		go func() {
+			defer wg.Done()
+			defer r.recoverPanic("ghost writer")
+			for k, l := range g.spec.Sizes {
+				if r.aborted.Load() {
+					return
+				}
+				d := payloadDesc{Conn: 0xffff - gi, Dir: g.spec.Dir, Writer: 9, Seq: k, Len: l, ID: g.id}
+				b := make([]byte, l)
+				d.fill(b)
+				r.towards[1-g.spec.Dir].Add(1)
+				if n, err := g.wr.Write(b); err != nil || n != l {
+					if !r.aborted.Load() {
+						r.failf("Write of %d bytes to id=%d (open at the sending end only) returned (%d, %v)", l, g.id, n, err)
+					}
+					return
+				}
+				r.progress.Add(1)
+			}
+		}()
+	}
+	// Unblock of blocked multiplexers at their drawn point
+	started := time.Now()
+	for sd := 0; sd < 2; sd++ {
+		if !blocked[sd] {
+			continue
+		}
+		wg.Add(1)
+		go func(sd int) {
+			defer wg.Done()
+			defer r.recoverPanic("Unblock")
+			limit := time.Duration(max(1, c.UnblockDelayMs[sd])) * time.Millisecond
+			for c.UnblockAfter[sd] > 0 && r.towards[sd].Load() < int64(c.UnblockAfter[sd]) && time.Since(started) < limit && !r.aborted.Load() {
+				time.Sleep(100 * time.Microsecond)
+			}
+			r.unblocked[sd].Store(true)
+			r.p.m[sd].Unblock()
+			r.progress.Add(1)
+		}(sd)
+	}
+
 	done := make(chan struct{})
 	go func() { wg.Wait(); close(done) }()
 	stalled := false
@@ -323,6 +440,20 @@ wait:
 				}
 				break wait
 			}
+		}
+	}
+
+	// barrier rounds: concurrent acquisition of the handle of fresh ids (both ends deliver by now)
+	if len(c.Rounds) > 0 && r.fail == "" {
+		bad, stall, same := runOpenRounds(c, r.p, alloc)
+		ev.Get("C10").AddExtra("open_rounds", len(c.Rounds))
+		ev.Get("C10").AddExtra("open_rounds_all_handles_identical", same)
+		if bad != "" {
+			o := ev.Outcome{Classes: c10Classes(c), NonTrivial: c10NonTrivial(c), Fail: bad}
+			if stall {
+				o.History = map[string]any{"stacks": stacks()}
+			}
+			return o, stall
 		}
 	}
 
@@ -379,10 +510,11 @@ func (r *c10run) writer(s C10Stream, name string, w int, wr net.Conn, cred *cred
 		if r.aborted.Load() {
 			return
 		}
+		r.towards[1-s.Dir].Add(1)
 		n, err := wr.Write(buf[:l])
 		if err != nil || n != l {
 			r.failf("%s writer %d seq %d: Write of %d bytes returned (%d, %v) although the receiver keeps up with queue length %d",
-				name, w, seq, l, n, err, r.c.QLen)
+				name, w, seq, l, n, err, r.c.qlenOf(1-s.Dir))
 			return
 		}
 		r.progress.Add(1)
@@ -413,13 +545,18 @@ func (r *c10run) reader(s C10Stream, name string, rd net.Conn, cred *credits) {
 	frames := 0
 	id := r.c.IDs[s.Conn]
 	for {
+		wasBlocked := !r.unblocked[1-s.Dir].Load()
 		n, err := rd.Read(buf)
 		if r.aborted.Load() {
 			return
 		}
+		if err == nil && wasBlocked && !r.unblocked[1-s.Dir].Load() {
+			r.failf("%s reader: a frame of %d bytes was delivered although the mux was created WithBlockedRead and Unblock has not been called yet", name, n)
+			return
+		}
 		if err != nil {
 			r.failf("%s reader: Read returned error %q after %d frames although the receiver keeps up with queue length %d",
-				name, err, frames, r.c.QLen)
+				name, err, frames, r.c.qlenOf(1-s.Dir))
 			return
 		}
 		if n < 0 || n > len(buf) {
@@ -596,9 +733,9 @@ func c10Classes(c C10Case) []string {
 		cls = append(cls, "ids:5-8")
 	}
 	switch {
-	case c.QLen == 1:
+	case c.minQLen() == 1:
 		cls = append(cls, "qlen:1")
-	case c.QLen <= 16:
+	case c.minQLen() <= 16:
 		cls = append(cls, "qlen:2-16")
 	default:
 		cls = append(cls, "qlen:17-256")
@@ -624,14 +761,38 @@ func c10Classes(c C10Case) []string {
 	if lag {
 		cls = append(cls, "slow_reader")
 	}
-	if c.Blocked {
+	if c.Blocked || c.BlockedRead[0] || c.BlockedRead[1] {
 		cls = append(cls, "blocked_start")
+	}
+	if (c.BlockedRead[0] && c.UnblockAfter[0] > 0) || (c.BlockedRead[1] && c.UnblockAfter[1] > 0) {
+		cls = append(cls, "unblock_after_peer_writes")
+	}
+	if c.QLenB > 0 && c.QLenB != c.QLen {
+		cls = append(cls, "different_queue_lengths")
+	}
+	if c.OmitQLen[0] || c.OmitQLen[1] {
+		cls = append(cls, "default_queue_length_option_omitted")
+	}
+	if len(c.Ghosts) > 0 {
+		cls = append(cls, "writes_to_id_not_open_at_receiver")
+		for _, g := range c.Ghosts {
+			if g.Closed {
+				cls = append(cls, "writes_to_id_closed_at_receiver")
+				break
+			}
+		}
 	}
 	if len(c.Rounds) > 0 {
 		cls = append(cls, "concurrent_open_rounds")
 		for _, rd := range c.Rounds {
 			if rd.Reopen {
 				cls = append(cls, "concurrent_reopen_after_close")
+				break
+			}
+		}
+		for _, rd := range c.Rounds {
+			if rd.Ghost > 0 {
+				cls = append(cls, "write_before_id_is_opened")
 				break
 			}
 		}
